@@ -296,8 +296,8 @@ def c12_streams(tier, rng):
     ntr, per = (150, 4) if q else (2000, 30)
     cases = gens.chain_cases(rng, True, ntr, per)
     orc = {"stage0", "stage1", "stage2", "nopanic"}
-    return [Stream("chains", "chain", cases, adapt_nontriv, False,
-                   "all 841 two-stage chains over {head,tail,skip} x {static p in 0/2/5, dyninit, dynamic, dynamic handed over by itself} + filter/filter_map (4 masks) and %d seeded three-stage chains, %d random histories each (source diffs, batches, limit changes of any stage, full drains), per-stage taps; sort is exercised as a single stage in C11 only" % (ntr, per),
+    return [Stream("chains", "chain", cases, lambda c, o: _re.search(r" t\d=[^- ]", o) is not None, False,
+                   "all two-stage chains over {head,tail,skip} x {static p in 0/2/5, dyninit, dynamic; handed over as (values, stream) or - for dynamic, static 2, dyninit 2 - as the adapter itself} + filter/filter_map (4 masks) and %d seeded three-stage chains, %d random histories each (source diffs, batches, limit changes of any stage, full drains), per-stage taps; sort is exercised as a single stage in C11 only" % (ntr, per),
                    chain_hist, oracles=orc)]
 
 
@@ -516,8 +516,24 @@ def conc_streams(orc, with_lin=False, with_seq=None):
         st.append(Stream("schedules-random", "conc", gens.conc_random(rng, n), conc_nontriv, False,
                          "%d seeded random schedules of 3- and 4-thread configurations (two pollers + setter, two/three droppers (+ upgrader), poller + setter + dropper (+ upgrader), two setters + getter)" % n,
                          conc_hist, hook=True, oracles=orc))
+        race_orc = ({"racewake"} if "wake" in orc else set()) | \
+                   ({"raceended", "racenotearly"} if ("ended" in orc or "notearly" in orc) else set())
         if with_lin:
-            m = 2000 if q else 200000
+            r = 5000 if q else 100000
+            st.append(Stream("free-running-nextnow", "race", ["kind=nextnowset rounds=%d" % r for _ in range(4)],
+                             lambda c, o: True, False,
+                             "4 x %d free-running rounds of one next_now racing one set; afterwards the subscriber must end on the final value (a value and its version must be taken under one lock)" % r,
+                             lambda c, o: c.split()[0], oracles={"racefinal"}))
+        if race_orc:
+            r = 2500 if q else 50000
+            st.append(Stream("free-running-races", "race",
+                             ["kind=%s rounds=%d" % (k, r) for k in ("polldrop", "pollset", "drop2", "dropupgrade")
+                              for _ in range(4)],
+                             lambda c, o: True, False,
+                             "4 x %d free-running rounds each of: poll vs drop of the last clone, poll vs set, two concurrent drops of the last two clones, drop vs upgrade (no pause points: the OS scheduler picks the interleaving); a Pending poll must have been woken, the stream must end once all owners are gone and must not end under a live owner" % r,
+                             lambda c, o: c.split()[0], oracles=race_orc))
+        if with_lin:
+            m = 4000 if q else 300000
             st.append(Stream("free-running", "lin", gens.lin_cases(rng, m), lambda c, o: True, False,
                              "%d rounds of 2-4 free-running threads, each a random program of 2-5 operations (set / update / set_if_not_eq / get / next_now / poll / read-guard hold with try_write probe / write-guard hold with try_read+try_write probes and guarded sets) on clones of one SharedObservable; invocation/response stamped with a global atomic counter; the recorded history is checked for linearizability against the extracted sequential model (Wing-Gong search), plus set-chain, guard-exclusion and final-value checks" % m,
                              lambda c, o: "threads=%d" % (c.count(" | ") + 1), oracles={"lin", "setchain", "rguard", "wguard", "guardprobe", "final"}))
